@@ -797,6 +797,34 @@ func isLosslessBlendingPossible(src, dst *image.NRGBA, rect image.Rectangle) boo
 	return true
 }
 
+// increaseTransparency makes every pixel of subImg (the sub-frame extracted
+// from the current canvas at rect) that is identical to the previous canvas
+// fully transparent, so that an alpha-blended sub-frame lets the previous
+// canvas show through there instead of compositing the pixel onto itself
+// (which would change any pixel whose alpha is neither 0 nor 0xFF). It must
+// be applied to every lossless sub-frame that is emitted with BlendAlpha: it
+// is what makes the isLosslessBlendingPossible criterion exact.
+//
+// This matches the C libwebp IncreaseTransparency:
+//
+//	for each pixel in rect:
+//	  if src_pixel == dst_pixel: dst_pixel = TRANSPARENT_COLOR (0x00000000)
+//
+// Parameters:
+//   - src: the previous canvas (carry-over from previous frame)
+//   - subImg: copy of the current canvas restricted to rect, origin (0,0)
+//   - rect: the sub-frame rectangle being encoded
+func increaseTransparency(src, subImg *image.NRGBA, rect image.Rectangle) {
+	for y := rect.Min.Y; y < rect.Max.Y; y++ {
+		for x := rect.Min.X; x < rect.Max.X; x++ {
+			sx, sy := x-rect.Min.X, y-rect.Min.Y
+			if src.NRGBAAt(x, y) == subImg.NRGBAAt(sx, sy) {
+				subImg.SetNRGBA(sx, sy, color.NRGBA{})
+			}
+		}
+	}
+}
+
 // isLossyBlendingPossible checks whether alpha blending can correctly
 // reconstruct the target pixels in rect for lossy encoding. This is similar
 // to isLosslessBlendingPossible but uses a quality-dependent similarity
@@ -868,6 +896,9 @@ func (e *AnimEncoder) encodeSubFrame(currCanvas *image.NRGBA, durMS int) error {
 	}
 
 	subImgNone := extractSubImage(currCanvas, rectNone)
+	if e.opts.Lossless && blendNone == BlendAlpha {
+		increaseTransparency(e.prevCanvas, subImgNone, rectNone)
+	}
 	bsNone, err := e.encodeFrame(subImgNone, e.opts.Lossless, e.opts.Quality)
 	if err != nil {
 		return fmt.Errorf("animation: encoding sub-frame (dispose-none): %w", err)
@@ -900,6 +931,9 @@ func (e *AnimEncoder) encodeSubFrame(currCanvas *image.NRGBA, durMS int) error {
 	}
 
 	subImgBG := extractSubImage(currCanvas, rectBG)
+	if e.opts.Lossless && blendBG == BlendAlpha {
+		increaseTransparency(prevDisposedCanvas, subImgBG, rectBG)
+	}
 	bsBG, err = e.encodeFrame(subImgBG, e.opts.Lossless, e.opts.Quality)
 	if err != nil {
 		// If encoding the BG candidate fails, fall through with DISPOSE_NONE.
